@@ -130,7 +130,12 @@ def main(argv=None):
             instances |= {(r.rule.id, i) for i in r.instances}
 
     known = load_known()
-    known_by_key = {k["key"]: k for k in known if k.get("status") == "known"}
+    known_by_key = {}
+    for k in known:
+        if k.get("status") == "known":
+            known_by_key[k["key"]] = k
+            for ak in k.get("also_keys", []):
+                known_by_key[ak] = k
     out_dir = os.path.join(VERIF, "out", prop)
     if not args.no_evidence:
         os.makedirs(out_dir, exist_ok=True)
